@@ -601,12 +601,20 @@ def in_hypotheses(case):
             if msg is not None:
                 if excl or n[1] in ignore or cho is not None or not attrs_ok(n, False, False):
                     return False
-                if any(d not in ('i18n:msg', 'i18n:comment') + _PY_DIRS for d in dirs):
+                if any(d not in ('i18n:msg', 'i18n:comment', 'i18n:ctxt', 'i18n:domain', 'py:with') + _PY_DIRS for d in dirs):
+                    return False
+                if G.dir_of(n, 'i18n:ctxt') == '':
                     return False
                 ps = G.split_params(msg)
                 return params_ok(ps, n[4]) and content_ok(n[4], 0, False, True, False)
             if cho is not None:
-                if excl or n[1] in ignore or dirs != ['i18n:choose'] or not attrs_ok(n, False, False):
+                if excl or n[1] in ignore or not attrs_ok(n, False, False):
+                    return False
+                # the plural choice may share its element with the non-extracting i18n directives and
+                # with control-flow directives (ChooseDirective.__call__ as repaired: it applies them)
+                if any(d not in ('i18n:choose', 'i18n:comment', 'i18n:ctxt', 'i18n:domain', 'py:with') + _PY_DIRS for d in dirs):
+                    return False
+                if G.dir_of(n, 'i18n:ctxt') == '':
                     return False
                 numeral, ps = G.choose_parts(cho)
                 return choose_ok(n[4], numeral, ps)
@@ -1110,6 +1118,24 @@ def corr_lines(case, rng):
     except Exception as e:  # noqa
         real = [Atom('err'), Atom(errname(e))]
     out.append(('extract', line, real))
+    # --- Translator.extract(stream, search_text=st, comment_stack=cs, context_stack=xs): the keyword
+    # arguments the recursion uses, given from outside (theorem lookups_subset_extract_args)
+    tmpl, tr = fresh_template(case)
+    w = Wire()
+    wired = w.stream(tmpl.stream)
+    st = rng.random() < 0.75
+    cs = rng.choice([[], [], ['note'], ['one', 'two']])
+    xs = rng.choice([[], [], ['menu'], ['menu', 'verb'], ['']])
+    line = proto.line(Atom('C19'), Atom('extractw'), wire_cfg(tr), B(st), list(cs), list(xs), wired)
+    try:
+        msgs = []
+        for lineno, func, msg, comments in tr.extract(tmpl.stream, search_text=st, comment_stack=list(cs), context_stack=list(xs)):
+            msgs.append([proto.N if func is None else func, Wire.val(msg), list(comments)])
+        real = [Atom('ok'), msgs]
+    except Exception as e:  # noqa
+        real = [Atom('err'), Atom(errname(e))]
+    out.append(('extractw', line, real))
+    out.append(('branches', None, ['extractw:st=%d,cs=%d,xs=%d' % (int(st), len(cs), len(xs))]))
     # --- Translator.extract(stream, gettext_functions=gf) with the code as syntax trees: the model
     # itself runs `extractFromCode gf` where the code meets an EXPR / EXEC event or an expression in an
     # attribute value (`extractP`); nothing the real extract_from_code computed goes to the model
